@@ -176,3 +176,22 @@ def coverage(sexpr):
             elif it[0] == "def":
                 tdef(it, "world-type")
     return cov
+
+
+def determinism_worlds():
+    """Worlds aimed at the hash-iteration sites of corpus/C15-sites.txt: several entries in each hash collection."""
+    P = "package t:p;\n"
+    return [
+        ("det:moonbit-builtins-import", P + "world w {\n  import f: func(x: u32) -> string;\n  export g: func();\n}\n"),
+        ("det:moonbit-exports", P + "interface i {\n  f: func(x: string) -> string;\n  g: func(x: list<u8>) -> list<string>;\n}\nworld w {\n  export i;\n  export h: func(x: string) -> string;\n  export k: func();\n}\n"),
+        ("det:moonbit-iface-builtins", P + "interface i {\n  record r { a: string, b: list<u32> }\n  f: func(x: r) -> r;\n  g: func(x: option<string>) -> result<string, string>;\n}\nworld w {\n  import i;\n  export i;\n}\n"),
+        ("det:moonbit-pkg-imports", P + "interface a { record r { x: u32 } }\ninterface b { use a.{r}; record s { y: r } }\ninterface c { use a.{r}; use b.{s}; f: func(x: r, y: s) -> s; }\nworld w {\n  import c;\n  export c;\n}\n"),
+        ("det:csharp-world-enums", P + "world w {\n  enum e1 { a, b }\n  enum e2 { c, d }\n  enum e3 { x, y }\n  import f: func(x: e1, y: e2) -> e3;\n}\n"),
+        ("det:csharp-resources-import", P + "interface i {\n  resource r1;\n  resource r2;\n  resource r3;\n  f: func(x: borrow<r1>);\n}\nworld w {\n  import i;\n}\n"),
+        ("det:csharp-resources-export", P + "interface i {\n  resource r1;\n  resource r2;\n  resource r3;\n  f: func(x: borrow<r1>);\n}\nworld w {\n  export i;\n}\n"),
+        ("det:world-use-resources", P + "interface i {\n  resource r1;\n  resource r2;\n  resource r3;\n}\nworld w {\n  use i.{r1, r2, r3};\n  import f: func(x: borrow<r1>, y: borrow<r2>) -> own<r3>;\n}\n"),
+        ("det:equal-types", P + "interface i {\n  record a { x: u32, y: string }\n  record b { x: u32, y: string }\n  record c { x: u32, y: string }\n  f: func(p: a) -> b;\n  g: func(p: list<c>) -> option<a>;\n}\nworld w {\n  import i;\n  export i;\n}\n"),
+        ("det:futures-streams", P + "interface i {\n  f: func(x: future<u32>, y: stream<u8>) -> future<string>;\n  g: func(x: stream<string>) -> stream<list<u8>>;\n  h: async func(x: future<future<u32>>) -> stream<u32>;\n}\nworld w {\n  import i;\n  export i;\n}\n"),
+        ("det:many-tuples", P + "interface i {\n  f: func(a: tuple<u8>, b: tuple<u8, u8>, c: tuple<u8, u8, u8>, d: tuple<u8, u8, u8, u8>) -> tuple<string, string, string, string, string>;\n}\nworld w {\n  import i;\n  export i;\n}\n"),
+        ("det:multi-iface-resources", P + "interface a { resource ra { constructor(); m: func(); } }\ninterface b { use a.{ra}; resource rb { constructor(x: borrow<ra>); } }\ninterface c { use a.{ra}; use b.{rb}; f: func(x: own<ra>) -> own<rb>; }\nworld w {\n  import a;\n  import b;\n  import c;\n  export c;\n}\n"),
+    ]
